@@ -1,4 +1,5 @@
 import StraxModel.Lemmas.ChunkAlgSplit
+import StraxModel.Lemmas.SuperrunBad
 /-
   Helper lemmas for property C07, part 2: `Chunk.__init__`, `split`, `concatenate`, `merge`.
 -/
@@ -185,7 +186,24 @@ def splitRun1 (c : Chunk) (t : Int) : Option String :=
 def splitRun2 (c : Chunk) (t : Int) : Option String :=
   if runSingle (splitRuns (some c.superrun) t).2 then c.superrun.getLast?.map (·.id) else c.runId
 
-theorem Chunk.split_eq (c : Chunk) (t : Int) (early : Bool) :
+theorem Chunk.splitCore_eq (c : Chunk) (t : Int) (early : Bool) :
+    c.splitCore t early =
+      splitData c t early >>= fun v =>
+        mkChunk c.dataType c.kind (splitRun1 c v.2.2) c.start (max c.start v.2.2) v.1 (splitSub c v.2.2).1
+            (splitRuns (some c.superrun) v.2.2).1 c.target >>= fun c1 =>
+        mkChunk c.dataType c.kind (splitRun2 c v.2.2) (max c.start v.2.2) (max v.2.2 c.stop) v.2.1
+            (splitSub c v.2.2).2 (splitRuns (some c.superrun) v.2.2).2 c.target >>= fun c2 =>
+        pure (c1, c2) := by
+  unfold Chunk.splitCore splitData
+  simp only [bind, Except.bind, pure, Except.pure, splitRun1, splitRun2, splitSub, runSingle]
+  split
+  · rfl
+  · split
+    · rfl
+    · cases splitArray c.rows (max (min t c.stop) c.start) early <;> rfl
+
+/-- the former unconditional `Chunk.split_eq`, now for chunks on which `is_superrun` does not raise -/
+theorem Chunk.split_eq {c : Chunk} (hbad : c.isSuperrunBad = false) (t : Int) (early : Bool) :
     c.split t early =
       splitData c t early >>= fun v =>
         mkChunk c.dataType c.kind (splitRun1 c v.2.2) c.start (max c.start v.2.2) v.1 (splitSub c v.2.2).1
@@ -193,13 +211,7 @@ theorem Chunk.split_eq (c : Chunk) (t : Int) (early : Bool) :
         mkChunk c.dataType c.kind (splitRun2 c v.2.2) (max c.start v.2.2) (max v.2.2 c.stop) v.2.1
             (splitSub c v.2.2).2 (splitRuns (some c.superrun) v.2.2).2 c.target >>= fun c2 =>
         pure (c1, c2) := by
-  unfold Chunk.split splitData
-  simp only [bind, Except.bind, pure, Except.pure, splitRun1, splitRun2, splitSub, runSingle]
-  split
-  · rfl
-  · split
-    · rfl
-    · cases splitArray c.rows (max (min t c.stop) c.start) early <;> rfl
+  rw [Chunk.split_of_not_bad hbad, Chunk.splitCore_eq]
 
 /-- inversion of a successful `Chunk.split` -/
 theorem Chunk.split_ok_inv {c : Chunk} {t : Int} {early : Bool} {c1 c2 : Chunk}
@@ -209,7 +221,8 @@ theorem Chunk.split_ok_inv {c : Chunk} {t : Int} {early : Bool} {c1 c2 : Chunk}
             (splitRuns (some c.superrun) t').1 c.target = .ok c1 ∧
       mkChunk c.dataType c.kind (splitRun2 c t') (max c.start t') (max t' c.stop) d2
             (splitSub c t').2 (splitRuns (some c.superrun) t').2 c.target = .ok c2 := by
-  rw [Chunk.split_eq] at h
+  have h := (Chunk.split_ok_core h).2
+  rw [Chunk.splitCore_eq] at h
   obtain ⟨⟨d1, d2, t'⟩, hv, h⟩ := bind_eq_ok.1 h
   obtain ⟨c1', h1, h⟩ := bind_eq_ok.1 h
   obtain ⟨c2', h2, h⟩ := bind_eq_ok.1 h
@@ -311,9 +324,10 @@ theorem split_refuses_iff' {c : Chunk} {t : Int} (hwf : c.wf = true) :
     c.split t false = .error .cannotSplit ↔ ∃ r ∈ c.rows, r.straddles t := by
   obtain ⟨h0, hse, hs, hpos, hin⟩ := (Chunk.wf_iff c).1 hwf
   have hnn : ∀ r ∈ c.rows, 0 ≤ r.time := by intro r hr; have := hin r hr; omega
+  rw [Chunk.split_cannotSplit_iff]
   constructor
   · intro h
-    rw [Chunk.split_eq] at h
+    rw [Chunk.splitCore_eq] at h
     rcases bind_eq_error.1 h with hv | ⟨v, -, h⟩
     · obtain ⟨-, -, hsa⟩ := splitData_error hv
       exact straddler_of_splitArray_refuses hnn hsa
@@ -326,7 +340,7 @@ theorem split_refuses_iff' {c : Chunk} {t : Int} (hwf : c.wf = true) :
     have hri := hin r hr
     unfold Row.straddles at hst
     have hsa := splitArray_refuses_of_straddler hs ⟨r, hr, hst⟩
-    rw [Chunk.split_eq, splitData_interior (by omega) (by omega), hsa]
+    rw [Chunk.splitCore_eq, splitData_interior (by omega) (by omega), hsa]
     rfl
 
 /-! ### chunks without run annotations -/
@@ -400,7 +414,7 @@ theorem split_simple_ok {c : Chunk} {rid : String} {t : Int} {early : Bool} {d1 
     unfold splitRun2; rw [hsup, runSingle_of hsr.2]; rfl
   have hss : splitSub c t' = (none, none) := by
     unfold splitSub; rw [promised_of_subruns_none hsub, hsub]; rfl
-  rw [Chunk.split_eq, hv]
+  rw [Chunk.split_of_not_bad (Chunk.not_bad_of_subruns_none hsub), Chunk.splitCore_eq, hv]
   simp only [bind, Except.bind, hr1, hr2, hss, hm1, hm2, hsup]
   rw [mkChunk_plain h0 hst hin1 hsr.1]
   simp only
